@@ -47,6 +47,25 @@ def read_log(path: str) -> list[tuple]:
     return out
 
 
+class Opaque:
+    """Hyper-parameter whose *name* is constant while its content differs - like two different lambdas, both called
+    '<lambda>': forml's textual representation of a builder shows only ``__name__`` of such values."""
+
+    __name__ = 'opaque'
+
+    def __init__(self, value):
+        self.value = value
+
+    def __repr__(self):
+        return f'Opaque({self.value})'
+
+    def __eq__(self, other):
+        return isinstance(other, Opaque) and other.value == self.value
+
+    def __hash__(self):
+        return hash(('Opaque', self.value))
+
+
 def hp_term(hp: typing.Mapping[str, typing.Any]) -> term.Term:
     return T('hp', *(f'{k}={hp[k]!r}' for k in sorted(hp)))
 
